@@ -1,7 +1,7 @@
 """C08 — JSON codec (see jsonfam.py and DESIGN.md §4.6-4.8)."""
 from . import jsonfam
 
-THEOREMS = []
+THEOREMS = ["Goag.JsonM.decodeFields_ok_required_present", "Goag.JsonM.decodeFields_never_unnamed_type", "Goag.JsonM.decodeFields_missing_origin"]
 RULE = "specs = random component sets: objects (1-4 properties of primitive / nullable primitive / $ref / inline array / inline object / untyped kind, required or optional, additionalProperties absent / true / schema), array components, allOf in every ref/inline member order, oneOf with discriminator (+mapping) and without; values = reflect-built from the schema (every optional subset, nulls where allowed, empty and nil collections, strings needing escapes, extreme numbers, zoned times, additional keys with quotes / backslashes / newlines / non-ASCII); documents = generated from the schema independently of goag (optional subsets, null where allowed, extra keys) + single-fault mutants (drop a required key, swap a value kind); distinct by (package, type, canonical JSON)"
 EXPLANATION = "decode: every generated document and single-fault mutant is decoded by the generated UnmarshalJSON; result (value dump or error kind + key) and canonical re-encoding are compared with the Lean model decode / toJ and with the reference (valid => accepted and re-encoded to the document up to keys the schema does not allow; dropped required key / wrong JSON kind => error naming the property)"
 ASSUMPTIONS = ["schemas non-recursive; property names free of quote / backslash / control characters", "oneOf without discriminator: every alternative has a required property of its own (unambiguous probing)",
